@@ -16,11 +16,16 @@ VARIABLES ctx, mver, calls, hist,
           ord        \* table order of the context states: a commit removes the states it writes and re-adds them at the
                      \* end (observation only - it feeds the situation labels, no action depends on it)
 vars == <<ctx, mver, calls, hist, ord>>
+pview == <<ctx, mver, calls, ord>>     \* view of the test-purpose run (the labels depend on ord)
 view == <<ctx, mver, calls>>
 
 NoC == [present |-> FALSE, d |-> "none", assoc |-> "No", bind |-> -1, unbind |-> -1]
 Init == ctx = [c \in CH |-> NoC] /\ mver = 0 /\ calls = 0 /\ hist = <<>> /\ ord = <<>>
-Reorder(cx, touched) == SelectSeq(ord, LAMBDA c : c \notin touched /\ cx[c].present) \o SetToSeq({c \in touched : cx[c].present})
+\* (written: first the states the call disassociated, then the states it names / creates, in the order of the proposals)
+Reorder(cx, others, named) ==
+  LET all == others \cup {named[k] : k \in DOMAIN named} IN
+  SelectSeq(ord, LAMBDA c : c \notin all /\ cx[c].present)
+    \o SetToSeq({c \in others : cx[c].present /\ \A k \in DOMAIN named : named[k] # c}) \o named
 Pos(c) == IF \E k \in DOMAIN ord : ord[k] = c THEN CHOOSE k \in DOMAIN ord : ord[k] = c ELSE 0
 \* a completely disassociated state of d stands behind the associated one (it was updated after the association)
 DisBehindAssoc(d) == \E a \in CH, x \in CH : /\ ctx[a].present /\ ctx[a].d = d /\ ctx[a].assoc = "Assoc"
@@ -49,7 +54,7 @@ SetLocation(d) ==
          nx == [cx EXCEPT ![c] = [present |-> TRUE, d |-> d, assoc |-> "Assoc", bind |-> v, unbind |-> -1]]
      IN /\ ctx' = nx
         /\ mver' = v
-        /\ ord' = Reorder(nx, {x \in CH : nx[x] # ctx[x]})
+        /\ ord' = Reorder(nx, {x \in CH : nx[x] # ctx[x]}, <<c>>)
   /\ Log([act |-> "SetLocation", d |-> d, res |-> "ok",
           sit |-> {"L:" \o ToString(Cardinality(Assoc(ctx, d))) \o ":" \o ToString(Cardinality(Of(d)) > 1) \o ":"
                    \o (IF \E c \in Of(d) : ctx[c].assoc = "Assoc" /\ ctx[c].unbind # -1 THEN "reassociated" ELSE "-")}])
@@ -95,7 +100,12 @@ SetContextState(props) ==
   /\ IF Rejected(props)
      THEN UNCHANGED <<ctx, mver, ord>> /\ Log([act |-> "SetContextState", props |-> props, res |-> "rejected", sit |-> SitOfCall(props)])
      ELSE /\ ctx' = Apply(ctx, props, 1, mver + 1) /\ mver' = mver + 1
-          /\ ord' = Reorder(ctx', {x \in CH : ctx'[x] # ctx[x]} \cup {props[i].tgt : i \in {j \in 1..Len(props) : props[j].tgt \in CH}})
+          /\ ord' = LET nw == {x \in CH : ~ctx[x].present /\ ctx'[x].present}
+                        \* the handles the proposals name, a new state where the proposal says "new" (CHOOSE as in Apply)
+                        named == [k \in 1..Len(props) |-> IF props[k].tgt \in CH THEN props[k].tgt
+                                                          ELSE CHOOSE x \in nw : TRUE]
+                    IN Reorder(ctx', {x \in CH : ctx'[x] # ctx[x]}, IF nw = {} \/ Len(props) = 1 \/ Cardinality(nw) = 1 THEN named
+                                                                      ELSE SetToSeq(nw \cup {props[k].tgt : k \in {j \in 1..Len(props) : props[j].tgt \in CH}}))
           /\ Log([act |-> "SetContextState", props |-> props, res |-> "ok", sit |-> SitOfCall(props)])
 
 Next == \/ SetLocation("lc")
